@@ -1075,7 +1075,9 @@ class PDFType3Font(PDFSimpleFont):
         PDFSimpleFont.__init__(self, descriptor, widths, spec)
         self.matrix = cast(Matrix, tuple(list_value(spec.get("FontMatrix"))))
         (_, self.descent, _, self.ascent) = self.bbox
-        (self.hscale, self.vscale) = apply_matrix_norm(self.matrix, (1, 1))
+        # horizontal displacement of (1, 0) and vertical displacement of (0, 1)
+        (self.hscale, _) = apply_matrix_norm(self.matrix, (1, 0))
+        (_, self.vscale) = apply_matrix_norm(self.matrix, (0, 1))
 
     def __repr__(self) -> str:
         return "<PDFType3Font>"
